@@ -397,6 +397,13 @@ func c12Interleave(x *mc.Exec, opIdx []int, order int, statementGranularity bool
 		return
 	}
 	ops := c12Ops()
+	for _, oi := range opIdx {
+		if strings.HasPrefix(ops[oi].name, "UnmarshalDocument(collection of 40)") {
+			// thousands of scheduling points: this operation is run alone under the statement
+			// monitor, in sequences and in the free-running pass, not under the scheduler
+			return
+		}
+	}
 	s := c12Schema(order)
 	solo := make([]string, len(opIdx))
 	for i, oi := range opIdx {
